@@ -14,14 +14,16 @@ fn clamp_to_bounds(p: Point, height: i32, width: i32) -> Point {
 // Draw the outline of a rectangle `rect` with border width `width`.
 //
 // The outline is drawn such that the bounding box of the outermost pixels
-// will be `rect`.
+// will be `rect`. If the border is wider than the rect, the whole rect is
+// filled.
 pub fn stroke_rect<T: Copy>(mut mask: NdTensorViewMut<T, 2>, rect: Rect, value: T, width: u32) {
     let width = width as i32;
 
     // Left edge
     fill_rect(
         mask.view_mut(),
-        Rect::from_tlbr(rect.top(), rect.left(), rect.bottom(), rect.left() + width),
+        Rect::from_tlbr(rect.top(), rect.left(), rect.bottom(), rect.left() + width)
+            .intersection(rect),
         value,
     );
 
@@ -33,7 +35,8 @@ pub fn stroke_rect<T: Copy>(mut mask: NdTensorViewMut<T, 2>, rect: Rect, value: 
             rect.left() + width,
             rect.top() + width,
             rect.right() - width,
-        ),
+        )
+        .intersection(rect),
         value,
     );
 
@@ -45,7 +48,8 @@ pub fn stroke_rect<T: Copy>(mut mask: NdTensorViewMut<T, 2>, rect: Rect, value: 
             rect.right() - width,
             rect.bottom(),
             rect.right(),
-        ),
+        )
+        .intersection(rect),
         value,
     );
 
@@ -57,7 +61,8 @@ pub fn stroke_rect<T: Copy>(mut mask: NdTensorViewMut<T, 2>, rect: Rect, value: 
             rect.left() + width,
             rect.bottom(),
             rect.right() - width,
-        ),
+        )
+        .intersection(rect),
         value,
     );
 }
